@@ -81,4 +81,8 @@ theorem pad_kspace_plan_eq : Gen.C10.padKspacePlan = some Crop.padKspacePlan := 
 
 theorem crop_kspace_plan_eq : Gen.C10.cropKspacePlan = some Crop.cropKspacePlan := by decide
 
+/-- neither transform has an early `return` that would skip the plan -/
+theorem kspace_plans_no_early_return :
+    Gen.C10.padKspacePlanReturns = 1 ∧ Gen.C10.cropKspacePlanReturns = 1 := by decide
+
 end DirectVerif.Bridge.C10
